@@ -215,6 +215,68 @@ def lowPrecondGrad [Add α] [Mul α] [OfNat α 0] [Inhabited α] (G : Geom) (P :
     Option (List α) :=
   precondGradWith G (fun b gb => lowBlock gb (slotMats P Mx.zero (lowSlots G.ptype G.rank b))) g
 
+
+/-! ### the compressed branch of `_precondition_block` (`compression_rank ≠ 0`) -/
+
+/-- a stored preconditioner as the loop finds it: a square matrix, or a packed `d × (r+2)` low-rank-plus-constant
+representation (`_low_rank_pack`; it is packed exactly when `application_dim != dim`, C10). -/
+inductive Stored (α : Type) where
+  | dense (P : Mx α)
+  | packed (d r : Nat) (P : Mx α)
+
+/-- `_low_rank_unpack`: `eigvecs = P[:, :r]` (read in place), `inverted_eigvals = P[:r, -2]` -/
+def pkE (r : Nat) (P : Mx α) (q : Nat) : α := P q r
+/-- `const = P[0, -1]` -/
+def pkC (r : Nat) (P : Mx α) : α := P 0 (r + 1)
+/-- `has_zeros = P[-1, -2].astype(bool)` -/
+def pkSkip [BEq α] [OfNat α 0] (d r : Nat) (P : Mx α) : Bool := !(P (d - 1) r == 0)
+
+/-- `Low`: the compressed branch, the preconditioned axis first (loop invariant):
+  lowrank_basis = tensordot(g, eigvecs, [[0],[0]]);  lowrank_component = tensordot(lowrank_basis, eigvecs, [[rank-1],[1]])
+  g = transpose(g, roll);  complement = g - lowrank_component;  scaled = tensordot(lowrank_basis * eigvals, eigvecs, …)
+  g = where(skip, old_g, const * complement + scaled).
+(The rolled `g` is read as 0 outside the array: an index function is only constrained on in-range indices.) -/
+def packedStep [Add α] [Sub α] [Mul α] [OfNat α 0] [BEq α] (g : Tensor α) (d r : Nat) (P : Mx α) : Tensor α :=
+  { shape := g.shape.tail ++ [g.shape.headD 0]
+    get := fun idx =>
+      let rest := idx.dropLast
+      let b := idx.getLastD 0
+      let lb : Nat → α := fun q => lsum ((List.range (g.shape.headD 0)).map fun i => g.get (i :: rest) * P i q)
+      let lc : α := lsum ((List.range r).map fun q => lb q * P b q)
+      let gt : α := if b < g.shape.headD 0 then g.get (b :: rest) else 0
+      let slc : α := lsum ((List.range r).map fun q => lb q * pkE r P q * P b q)
+      if pkSkip d r P then gt else pkC r P * (gt - lc) + slc }
+
+/-- `Spec`: the dense matrix a packed preconditioner denotes, `c (I − V Vᵀ) + V diag(e) Vᵀ` (C10's `denote`) -/
+def denoteMx [Add α] [Sub α] [Mul α] [OfNat α 0] [OfNat α 1] (r : Nat) (P : Mx α) : Mx α := fun i b =>
+  pkC r P * ((if i = b then 1 else 0) - lsum ((List.range r).map fun q => P i q * P b q)) +
+    lsum ((List.range r).map fun q => P i q * pkE r P q * P b q)
+
+/-- the matrix a stored preconditioner stands for: itself, the denoted matrix, or the identity when flagged -/
+def denoteStored [Add α] [Sub α] [Mul α] [OfNat α 0] [OfNat α 1] [BEq α] : Stored α → Mx α
+  | .dense P => P
+  | .packed d r P => if pkSkip d r P then precondInit else denoteMx r P
+
+def lowBlockStepC [Add α] [Sub α] [Mul α] [OfNat α 0] [BEq α] (g : Tensor α) (slot : Option (Stored α)) :
+    Tensor α :=
+  match slot with
+  | none => rotate g
+  | some (.dense P) => tensordot0 g P
+  | some (.packed d r P) => packedStep g d r P
+
+/-- `Low`: `_precondition_block` with its compressed branch -/
+def lowBlockC [Add α] [Sub α] [Mul α] [OfNat α 0] [BEq α] (g : Tensor α) (slots : List (Option (Stored α))) :
+    Tensor α :=
+  slots.foldl lowBlockStepC g
+
+def slotStored (P : List (Stored α)) (dflt : Stored α) (slots : List (Option Nat)) : List (Option (Stored α)) :=
+  slots.map fun o => o.map fun ix => P.getD ix dflt
+
+/-- `Low`: `Preconditioner.preconditioned_grad` on stored (dense or packed) preconditioners -/
+def lowPrecondGradC [Add α] [Sub α] [Mul α] [OfNat α 0] [BEq α] [Inhabited α] (G : Geom) (P : List (Stored α))
+    (g : List α) : Option (List α) :=
+  precondGradWith G (fun b gb => lowBlockC gb (slotStored P (.dense Mx.zero) (lowSlots G.ptype G.rank b))) g
+
 /-! ### `_transform_grad` after the preconditioned gradient -/
 
 structure Hyper (α : Type) where
@@ -368,6 +430,12 @@ def specUpdate (sqrt : α → α) (natCast : Nat → α) (sharded : Bool) (G : G
 def lowUpdate (sqrt : α → α) (natCast : Nat → α) (sharded : Bool) (G : Geom) (h : Hyper α) (step : Nat)
     (skip : Bool) (g param : List α) (st : PState α) (before after : List (Mx α)) : Option (TOut α) :=
   (if skip then some g else lowPrecondGrad G (usedPreconds sharded before after) g).map fun pg =>
+    lowTransform sqrt natCast h step skip g param st pg
+
+/-- `Low` with the compressed branch: `_transform_grad` on `preconditioned_grad` of stored preconditioners -/
+def lowUpdateC (sqrt : α → α) (natCast : Nat → α) (sharded : Bool) (G : Geom) (h : Hyper α) (step : Nat)
+    (skip : Bool) (g param : List α) (st : PState α) (before after : List (Stored α)) : Option (TOut α) :=
+  (if skip then some g else lowPrecondGradC G (usedPreconds sharded before after) g).map fun pg =>
     lowTransform sqrt natCast h step skip g param st pg
 
 end Update
